@@ -77,7 +77,7 @@ PROBES = [
     "filter_with_cacheable_nodes_evaluated", "reuse_depth_ge_100", "preempted_inside_compile", "preempted_inside_filter",
     "abandoned_mid_filter", "cancel_inside_evaluation", "repurge_between_regex_calls", "same_query_two_docs_midflight",
     "preempt_same_file_two_threads", "compiled_many_other_texts", "short_lived_documents", "filter_raised_type_error",
-    "foreign_environment_in_process",
+    "foreign_environment_in_process", "sync_use_between_suspended_tasks",
 ]
 _SCRATCH_ENV = tripwire.register(jsonpath.JSONPathEnvironment())
 tripwire.register(jsonpath.DEFAULT_ENV)  # a constant, stateless addition to the module-level environment
@@ -197,14 +197,14 @@ def generate(seed: int, config: str, tier: str) -> Dict[str, Any]:
                     script.append(["iterate", e, qi, di, ci, ab])
                 elif r < 0.7:
                     script.append(["findall", e, qi, di, ci])
-                elif r < 0.8:
+                elif r < 0.78:
                     script.append(["hot", e, qi, [rng.randrange(len(docs)) for _ in range(rng.randint(1, 3))], ci,
                                    rng.choice([3, 10, (1000 if deep and rng.random() < 0.1 else 100) if rng.random() < 0.3 else 20])])
-                elif r < 0.8:
-                    script.append(["recompile", e, qi, di, ci])
                 elif r < 0.83:
+                    script.append(["recompile", e, qi, di, ci])
+                elif r < 0.86:
                     script.append(["envfind", e, qi, di, ci])
-                elif r < 0.9:
+                elif r < 0.92:
                     script.append(rng.choice([
                         # short-lived copies of the documents: created, evaluated, dropped (addresses get reused)
                         ["ephemeral", e, qi, [rng.randrange(len(docs)) for _ in range(rng.randint(2, 4))], ci, rng.choice([6, 20, 60])],
@@ -218,8 +218,15 @@ def generate(seed: int, config: str, tier: str) -> Dict[str, Any]:
             elif kind == "tasks":
                 if r < 0.5:
                     script.append(["iterate", e, qi, di, ci, frng.randrange(4) if frng.random() < 0.15 else None])
-                elif r < 0.9:
+                elif r < 0.8:
                     script.append(["findall", e, qi, di, ci])
+                elif r < 0.85:
+                    # synchronous uses of the shared compiled query in between the tasks' suspended evaluations
+                    script.append(["recompile", e, qi, di, ci])
+                elif r < 0.9:
+                    script.append(["hot", e, qi, [rng.randrange(len(docs)) for _ in range(rng.randint(1, 3))], ci, rng.choice([3, 10])])
+                elif r < 0.93:
+                    script.append(["envfind", e, qi, di, ci])
                 else:
                     script.append([frng.choice(["gc", "repurge"])])
             else:
@@ -362,12 +369,12 @@ class World:
         self.compiled: Dict[Tuple[str, int], Any] = {}
         self.compiled_str: Dict[Tuple[str, int], str] = {}
         self.compiled_sel: Dict[Tuple[str, int], Any] = {}
-        self.pristine: Dict[int, Any] = {}
-        penv = tripwire.register(jsonpath.JSONPathEnvironment())
+        # a second compile of the same text on the same environment, never evaluated: what "unchanged" is compared with
+        self.pristine: Dict[Tuple[str, int], Any] = {}
         for qi, t in enumerate(self.texts):
-            self.pristine[qi] = penv.compile(t)
             for e, env in self.envs.items():
                 c = env.compile(t)
+                self.pristine[(e, qi)] = env.compile(t)
                 self.compiled[(e, qi)] = c
                 self.compiled_str[(e, qi)] = str(c)
                 self.compiled_sel[(e, qi)] = self._selinfo(c)
@@ -389,7 +396,8 @@ class World:
             self.ctx_ids.append(ids)
         # matches handed out earlier stay what they were: (match object, what it looked like, who produced it)
         self.retained: List[Tuple[Any, Any, str]] = []
-        self.has_cacheable = [self._cacheable(self.pristine[qi]) for qi in range(len(self.texts))]
+        e0 = next(iter(self.envs))
+        self.has_cacheable = [self._cacheable(self.pristine[(e0, qi)]) for qi in range(len(self.texts))]
         self.uses_regex_fn = [("match(" in t or "search(" in t) for t in self.texts]
 
     def _all_refs(self, with_strs: bool = True) -> Any:
@@ -560,7 +568,7 @@ class World:
                     f"{self.compiled_str[key]!r} when compiled",
                     "C09.query:str-changed",
                 )
-            if not (c == self.pristine[key[1]]):
+            if not (c == self.pristine[key]):
                 raise Violation(
                     "C09.query",
                     f"after {after}: the compiled query for {self.texts[key[1]]!r} (env {key[0]}) is no longer equal to a pristine compile of the same text",
@@ -605,8 +613,13 @@ class World:
                 f"(fresh environment, caching off) gives {ref.show()}",
                 f"C09.result:exc:{exc}-vs-{ref.exc}",
             )
-        if lenient_prefix and exc:
-            return
+        if exc:
+            # Both raise the same class.  How many matches a lazy evaluation hands out before it raises is
+            # not part of the statement (an eager implementation raises first); what was handed out must
+            # still be what the isolated evaluation hands out at those positions.
+            n = min(len(got), len(ref.ms))
+            if lenient_prefix or got[:n] == ref.ms[:n]:
+                return
         if got != ref.ms:
             k = next((i for i, (a, b) in enumerate(zip(got, ref.ms)) if a != b), min(len(got), len(ref.ms)))
             raise Violation(
@@ -821,7 +834,7 @@ def _sync_op(w: World, ctx: Ctx, cid: int, op: List[Any], yield_point: Any = Non
 
 def _ended(h_desc: str, pos: int, exc: Optional[str], ref: _Ref, lenient: bool = False) -> None:
     """An evaluation ended (normally or by raising *exc*) after *pos* matches."""
-    if exc != ref.exc or (not (lenient and exc) and pos != len(ref.ms)):
+    if exc != ref.exc or (not exc and pos != len(ref.ms)):
         how = f"raised {exc}" if exc else "ended"
         raise Violation(
             "C09.result",
@@ -842,7 +855,9 @@ def _advance(w: World, ctx: Ctx, cid: int, h: _Handle) -> bool:
         ctx.log.add("raised", cid, type(ex).__name__)
         return False
     got = (m.path, core.tj(m.obj))
-    if h.pos >= len(h.ref.ms) or got != h.ref.ms[h.pos]:
+    if h.ref.exc and h.pos >= len(h.ref.ms):
+        pass  # past the point where the isolated evaluation raised: only the error itself is compared
+    elif h.pos >= len(h.ref.ms) or got != h.ref.ms[h.pos]:
         raise w.bad_match(h.desc, h.pos, got, h.ref)
     h.pos += 1
     w.retain(m, got, h.desc)
@@ -960,6 +975,11 @@ def _run_tasks(spec: Dict[str, Any], ctx: Ctx) -> None:
         if kind in ("gc", "repurge"):
             _sync_op(w, ctx, cid, op)
             return
+        if kind in ("recompile", "hot", "envfind"):
+            ctx.switch(cid)
+            ctx.count("probe.sync_use_between_suspended_tasks")
+            _sync_op(w, ctx, cid, op)
+            return
         if kind not in ("findall", "iterate"):
             return
         e, qi, di, ci = _idx(op, w)
@@ -995,7 +1015,9 @@ def _run_tasks(spec: Dict[str, Any], ctx: Ctx) -> None:
                     got = (m.path, core.tj(m.obj))
                     ctx.switch(cid)
                     ctx.log.add("match", cid, pos)
-                    if not (lenient and ref.exc) and (pos >= len(ref.ms) or got != ref.ms[pos]):
+                    if ref.exc and (lenient or pos >= len(ref.ms)):
+                        pass  # past the point where the isolated evaluation raised (or the store is failing): only the error is compared
+                    elif pos >= len(ref.ms) or got != ref.ms[pos]:
                         raise w.bad_match(desc, pos, got, ref)
                     pos += 1
                     live[cid] = ((e, qi), (qi, di, ci), pos)
